@@ -141,7 +141,9 @@
 (hy-repr-register [hy.models.String str hy.models.Bytes bytes] (fn [x]
   (setv r (.lstrip (_base-repr x) "ub"))
   (if (is-not None (getattr x "brackets" None))
-    f"#[{x.brackets}[{x}]{x.brackets}]"
+    ; The reader drops one newline right after the opening delimiter, so
+    ; a string that begins with a newline needs an extra one.
+    (+ "#[" x.brackets "[" (if (.startswith x "\n") "\n" "") x "]" x.brackets "]")
     (+
       (if (isinstance x bytes) "b" "")
       (if (.startswith "\"" r)
@@ -183,9 +185,12 @@
     (hy-repr (get x 0))
     (if x.conversion f" !{x.conversion}" "")
     (if (> (len x) 1)
-      (+ " :" (if (isinstance (get x 1) hy.models.String)
-        (get x 1)
-        (hy-repr (get x 1))))
+      ; A format spec can have several components, such as the
+      ; nested fields and the literal text of `:{w}.{p}f`.
+      (+ " :" #* (lfor part (cut x 1 None)
+        (if (isinstance part hy.models.String)
+          (str part)
+          (hy-repr part))))
       "")
     "}")))
 
@@ -194,6 +199,10 @@
   (fn [fstring]
     (if (is-not None fstring.brackets)
       (+ "#[" fstring.brackets "["
+         (if (and fstring
+                  (isinstance (get fstring 0) hy.models.String)
+                  (.startswith (get fstring 0) "\n"))
+           "\n" "")
          #* (lfor component fstring
                   (if (isinstance component hy.models.String)
                       (.replace (.replace (str component)
